@@ -169,3 +169,42 @@ package candidates
 //@   ensures kept: forall i int :: 0 <= i && i < n ==> cand.updates[i] == old(cand.updates[i])
 //@   ensures reported: ledgerDelta(c.bus.checker, coin) == old(ledgerDelta(c.bus.checker, coin)) + old(value.val)
 //@   modifies cand.updates, cand.isUpdatesDirty, candCache, ledgerDelta(c.bus.checker, coin)
+
+//@ # ---------------------------------------------------------------- choosing the validator set (C17)
+//@ # candList(c): the ranked list of candidates (total stake descending, then id - the ranking itself is assumed here);
+//@ # a candidate is eligible when it is online and has at least the minimum validator stake (1000 base coins)
+//@ ghost candList(c *Candidates) []*Candidate
+//@ ghost chosen(c *Candidates) []*Candidate
+//@ func (*Candidates).GetCandidates
+//@   trusted
+//@   ensures result == candList(c)
+//@   modifies candCache
+//@ spec eligible(x *Candidate) bool = x.Status == CandidateStatusOnline && x.totalBipStake.val >= 1000000000000000000000
+//@ spec eligCount(l []*Candidate, n int) int = n <= 0 ? 0 : eligCount(l, n-1) + (eligible(l[n-1]) ? 1 : 0)
+//@ # the new validators are exactly the first valCount eligible candidates of the ranking, in ranking order
+//@ func (*Candidates).GetNewCandidates
+//@   serves C17
+//@   let l = candList(c)
+//@   requires c != nil && valCount >= 0 && allocated(l)
+//@   requires wf: forall i int :: 0 <= i && i < len(l) ==> l[i] != nil && allocated(l[i]) && l[i].totalBipStake != nil && allocated(l[i].totalBipStake)
+//@   ensures size: len(result) == min(valCount, old(eligCount(l, len(l))))
+//@   ensures chosen: forall k int :: 0 <= k && k < len(l) && old(eligible(l[k])) && old(eligCount(l, k)) < valCount ==> result[old(eligCount(l, k))] == l[k]
+//@   # history ghost (auxiliary variable, no code reads it): the list returned by the latest call
+//@   ensures [assumed] recorded: chosen(c) == result
+//@   modifies candCache, chosen(c)
+//@   local result []*Candidate
+//@   loop 0 invariant idx: -1 <= rangeindex && (rangeindex < len(l) || (rangeindex == -1 && len(l) == 0)) && candidates == l
+//@   loop 0 invariant count: len(result) == old(eligCount(l, rangeindex + 1)) && len(result) <= rangeindex + 1
+//@   loop 0 invariant below: forall k int :: 0 <= k && k <= rangeindex && old(eligible(l[k])) ==> 0 <= old(eligCount(l, k)) && old(eligCount(l, k)) < len(result)
+//@   loop 0 invariant placed: forall k int :: 0 <= k && k <= rangeindex && old(eligible(l[k])) ==> result[old(eligCount(l, k))] == l[k]
+
+//@ # total stake of a candidate as used for voting power; ASSUMED summaries of the stake recalculation entry point
+//@ ghost totalStakeOf(c *Candidates, pk types.Pubkey) int
+//@ func (*Candidates).GetTotalStake
+//@   trusted
+//@   ensures result != nil && fresh(result) && result.val == totalStakeOf(c, pubkey) && result.val >= 0
+//@   modifies candCache
+//@ ghost candAbs() int
+//@ func (*Candidates).RecalculateStakesV2
+//@   trusted
+//@   modifies candAbs, candCache, candList, totalStakeOf, candObj, candExists, stakeObj, stakeList, stake.Value, stake.BipValue, Candidate.totalBipStake, Candidate.Status, Candidate.updates, bigval, wlItem, ffModel, frozenfunds.Model.List, ledgerDelta, ledgerVolume
